@@ -528,6 +528,7 @@ func (this *partition) processSnapshot(data []byte) error {
 }
 
 func (this *partition) snapshot() ([]byte, error) {
+	verifGate("snapshot.serialize", 0)
 	var buf bytes.Buffer
 	if err := this.index.Save(&buf, false); err != nil {
 		return nil, err
